@@ -2,7 +2,7 @@
    Only statements, `exact`, Print Assumptions. Specs: Model/C02Spec.v; models: Model/C02*.v; proofs: Proofs/C02*.v *)
 From Coq Require Import List Arith Bool ZArith Ring.
 From PV Require Import Base.Index Base.Perm Base.Sum Np.Array Model.Sparse Model.Repr
-                       Model.C02Spec Model.C02Dense Proofs.C02DenseProofs.
+                       Model.C02Spec Model.C02Dense Model.C02Sparse Proofs.C02DenseProofs Proofs.C02SparseProofs.
 Import ListNotations.
 
 Section C02.
@@ -19,6 +19,107 @@ Theorem C02_ttv_dense : forall (X : dense V) dims vs,
   forall i', inb (ttv_shape (dshape X) dims) i' = true ->
     den_dense v0 Y i' = spec_ttv v0 vadd vmul (den_dense v0 X) (dshape X) dims vs i'.
 Proof. exact (impl_ttv_dense_correct V v0 vadd vmul). Qed.
+
+(* dense innerprod / squared Frobenius norm (x.dot(y) on the F-order ravel) *)
+Theorem C02_innerprod_dense : forall X Y : dense V, wf_dense X -> wf_dense Y -> dshape X = dshape Y ->
+  impl_innerprod_dense v0 vadd vmul X Y = spec_innerprod v0 vadd vmul (den_dense v0 X) (den_dense v0 Y) (dshape X).
+Proof. exact (impl_innerprod_dense_correct V v0 vadd vmul). Qed.
+
+Theorem C02_normsq_dense : forall X : dense V, wf_dense X ->
+  impl_normsq_dense v0 vadd vmul X = spec_normsq v0 vadd vmul (den_dense v0 X) (dshape X).
+Proof. exact (impl_normsq_dense_correct V v0 vadd vmul). Qed.
+
+(* dense ttm, single mode, plain (U is J x I_n) and transposed (U is I_n x J): permute / reshape / matmul / reshape / permute back *)
+Theorem C02_ttm_dense : forall (X : dense V) n U J tr,
+  wf_dense X -> n < length (dshape X) ->
+  let Y := impl_ttm_dense v0 vadd vmul X n U J tr in
+  dshape Y = upd (dshape X) n J /\ wf_dense Y /\
+  forall i, inb (upd (dshape X) n J) i = true ->
+    den_dense v0 Y i = spec_ttm v0 vadd vmul (den_dense v0 X) (dshape X) n U tr i.
+Proof. exact (impl_ttm_dense_correct V v0 vadd vmul). Qed.
+
+(* Khatri-Rao product with reverse=True: row sub2ind(shape, j) (first matrix fastest) holds Π_m U_m[j_m, r] *)
+Theorem C02_khatrirao_rev : forall R Us j r, Us <> [] -> Forall (wf_cols V R) Us ->
+  inb (map (@length _) Us) j = true -> r < R ->
+  mget v0 (kr_rev vmul Us) (sub2ind (map (@length _) Us) j) r = kprod v0 v1 vmul Us j r.
+Proof. exact (mget_kr_rev V v0 v1 vadd vmul vsub vopp Vring). Qed.
+
+(* dense mttkrp, factor list, branch n = 0: reshape(data, (I_0, rest)) @ khatrirao(U[1:], reverse=True) *)
+Theorem C02_mttkrp_dense_n0 : forall (X : dense V) Us R,
+  wf_dense X -> 2 <= length (dshape X) -> length Us = length (dshape X) ->
+  Forall (wf_cols V R) (skipn 1 Us) -> map (@length _) (skipn 1 Us) = skipn 1 (dshape X) ->
+  let Y := impl_mttkrp_dense v0 vadd vmul X Us 0 R in
+  dshape Y = [nth 0 (dshape X) 0; R] /\ wf_dense Y /\
+  forall x r, x < nth 0 (dshape X) 0 -> r < R ->
+    den_dense v0 Y [x; r] = spec_mttkrp v0 v1 vadd vmul (den_dense v0 X) (dshape X) 0 (repeat v1 R) Us x r.
+Proof. exact (impl_mttkrp_dense_n0_correct V v0 v1 vadd vmul vsub vopp Vring). Qed.
+
+(* ---- sparse: a sum over all subscripts of den_sp(i) g(i) is the sum over the stored entries ---- *)
+Variable isz : V -> bool.
+
+Theorem C02_sparse_sum : forall (S : sparse V) (g : idx -> V), wf_sp isz S ->
+  sum_over v0 vadd (allsubs (sshape S)) (fun i => vmul (den_sp v0 S i) (g i)) =
+  sum_over v0 vadd (entries S) (fun e => vmul (snd e) (g (fst e))).
+Proof. exact (sparse_sum V v0 v1 vadd vmul vsub vopp Vring isz). Qed.
+
+Theorem C02_innerprod_sparse_dense : forall (S : sparse V) (T : dense V), wf_sp isz S ->
+  impl_innerprod_sp_dense v0 vadd vmul S T = spec_innerprod v0 vadd vmul (den_sp v0 S) (den_dense v0 T) (sshape S).
+Proof. exact (impl_innerprod_sp_dense_correct V v0 v1 vadd vmul vsub vopp Vring isz). Qed.
+
+(* both nnz orderings of sptensor.innerprod(sptensor) *)
+Theorem C02_innerprod_sparse_sparse : forall A B : sparse V, wf_sp isz A -> wf_sp isz B -> sshape A = sshape B ->
+  impl_innerprod_sp_sp v0 vadd vmul A B = spec_innerprod v0 vadd vmul (den_sp v0 A) (den_sp v0 B) (sshape A).
+Proof. exact (impl_innerprod_sp_sp_correct V v0 v1 vadd vmul vsub vopp Vring isz). Qed.
+
+Theorem C02_normsq_sparse : forall S : sparse V, wf_sp isz S ->
+  impl_normsq_sp v0 vadd vmul S = spec_normsq v0 vadd vmul (den_sp v0 S) (sshape S).
+Proof. exact (impl_normsq_sp_correct V v0 v1 vadd vmul vsub vopp Vring isz). Qed.
+
+(* Kruskal ttv in one mode: weights * (A_n^T v), remaining factors kept *)
+Theorem C02_ttv_k1 : forall (K : ktensor V) n v i',
+  n < length (kfactors K) -> inb (remove_at n (kshape K)) i' = true ->
+  den_k v0 v1 vadd vmul (impl_ttv_k1 v0 vadd vmul K n v) i' =
+  spec_ttv1 v0 vadd vmul (den_k v0 v1 vadd vmul K) (kshape K) n v i'.
+Proof. exact (impl_ttv_k1_correct V v0 v1 vadd vmul vsub vopp Vring). Qed.
+
+(* representation independence, instance: the same array held sparse or dense gives the same inner product *)
+Theorem C02_repr_indep_innerprod : forall (S : sparse V) (X T : dense V),
+  wf_sp isz S -> wf_dense X -> wf_dense T -> sshape S = dshape X -> dshape X = dshape T ->
+  (forall i, den_sp v0 S i = den_dense v0 X i) ->
+  impl_innerprod_sp_dense v0 vadd vmul S T = impl_innerprod_dense v0 vadd vmul X T.
+Proof. exact (repr_indep_innerprod V v0 v1 vadd vmul vsub vopp Vring isz). Qed.
 End C02.
 
 Print Assumptions C02_ttv_dense.
+Print Assumptions C02_innerprod_dense.
+Print Assumptions C02_normsq_dense.
+Print Assumptions C02_ttm_dense.
+Print Assumptions C02_khatrirao_rev.
+Print Assumptions C02_mttkrp_dense_n0.
+Print Assumptions C02_sparse_sum.
+Print Assumptions C02_innerprod_sparse_dense.
+Print Assumptions C02_innerprod_sparse_sparse.
+Print Assumptions C02_normsq_sparse.
+Print Assumptions C02_ttv_k1.
+Print Assumptions C02_repr_indep_innerprod.
+
+(* non-vacuity: concrete non-symmetric instances over Z *)
+Local Open Scope Z_scope.
+Example C02_ex_ttv : impl_ttv_dense 0 Z.add Z.mul (mkDense [2; 3]%nat [1; 2; 3; 4; 5; 6]) [1%nat] [[1; 0; 2]] = mkDense [2%nat] [11; 14].
+Proof. reflexivity. Qed.
+Example C02_ex_ttv_scalar : impl_ttv_dense 0 Z.add Z.mul (mkDense [2; 3]%nat [1; 2; 3; 4; 5; 6]) [0; 1]%nat [[1; -1]; [1; 0; 2]] = mkDense [] [-3].
+Proof. reflexivity. Qed.
+Example C02_ex_ttm : impl_ttm_dense 0 Z.add Z.mul (mkDense [2; 3]%nat [1; 2; 3; 4; 5; 6]) 1 [[1; 0; 2]; [0; 1; 0]] 2 false
+                     = mkDense [2; 2]%nat [11; 14; 3; 4].
+Proof. reflexivity. Qed.
+Example C02_ex_ttm_T : impl_ttm_dense 0 Z.add Z.mul (mkDense [2; 3]%nat [1; 2; 3; 4; 5; 6]) 0 [[1; 0]; [2; 1]] 2 true
+                     = mkDense [2; 3]%nat [5; 2; 11; 4; 17; 6].
+Proof. reflexivity. Qed.
+Example C02_ex_mttkrp : impl_mttkrp_dense 0 Z.add Z.mul (mkDense [2; 3; 2]%nat [1; 2; 3; 4; 5; 6; 7; 8; 9; 10; 11; 12])
+                          [[[0]; [0]]; [[1]; [0]; [2]]; [[1]; [-1]]] 0 1 = mkDense [2; 1]%nat [-18; -18].
+Proof. reflexivity. Qed.
+Example C02_ex_innerprod_sp : impl_innerprod_sp_dense 0 Z.add Z.mul (mkSp [2; 3]%nat [[1; 2]; [0; 1]]%nat [5; 7]) (mkDense [2; 3]%nat [1; 2; 3; 4; 5; 6]) = 51.
+Proof. reflexivity. Qed.
+Example C02_ex_ttv_k : impl_ttv_k1 0 Z.add Z.mul (mkK [2; 3] [[[1; 0]; [2; 1]]; [[1; 1]; [0; 2]; [3; 0]]]) 1 [1; -1; 2]
+                       = mkK [14; -6] [[[1; 0]; [2; 1]]].
+Proof. reflexivity. Qed.
